@@ -128,4 +128,23 @@ func init() {
 		New: "	res, err := c.evalExpression(node.ReturnValue)\n	if err != nil || res == nil {\n		return nil, err\n	}\n\n	if node.Type == token.RETURN {", Expect: "R7"})
 	addMutant(Mutant{Name: "equiv-bind-by-index", Prop: "C16", File: "compiler.go", Equivalent: true,
 		Old: "	for i, p := range node.Parameters {\n		c.ctx.Set(p.Value, vals[i])\n	}", New: "	for i := range node.Parameters {\n		c.ctx.Set(node.Parameters[i].Value, vals[i])\n	}"})
+	// ---- C12 ----
+	addMutant(Mutant{Name: "revert-variadic-nil-elem", Prop: "C12", File: "compiler.go",
+		Old: "			var ar reflect.Value\n			if v != nil {\n				ar = reflect.ValueOf(v)\n			} else {\n				ar = reflect.New(expectedT).Elem()\n			}",
+		New: "			var ar reflect.Value\n			if v != nil {\n				ar = reflect.ValueOf(v)\n			} else {\n				ar = reflect.New(expectedT)\n			}", Expect: "R4"})
+	addMutant(Mutant{Name: "revert-helper-context-assignable", Prop: "C12", File: "compiler.go",
+		Old: "				hv := reflect.ValueOf(hargs)\n				switch {\n				case hv.Type().AssignableTo(arg):\n					args = append(args, hv)\n					return",
+		New: "				hv := reflect.ValueOf(hargs)\n				switch {\n				case true:\n					args = append(args, hv)\n					return", Expect: "R2"})
+	addMutant(Mutant{Name: "revert-nil-func-guard", Prop: "C12", File: "compiler.go",
+		Old: "	if rv.IsNil() {\n		return nil, fmt.Errorf(\"%+v is a nil function\", node.String())\n	}\n", New: "", Expect: "R3"})
+	addMutant(Mutant{Name: "fixed-branch-skips-assignable-test", Prop: "C12", File: "compiler.go",
+		Old: "			actualT := ar.Type()\n			if !actualT.AssignableTo(expectedT) {\n				return nil, fmt.Errorf(\"%+v (%T) is an invalid argument for %s at pos %d: expected (%s)\", v, v, node.Function.String(), pos, expectedT)\n			}\n\n			args = append(args, ar)\n		}\n\n		hc := func",
+		New: "			args = append(args, ar)\n		}\n\n		hc := func", Expect: "R2"})
+	addMutant(Mutant{Name: "block-not-handed-to-helper", Prop: "C12", File: "compiler.go",
+		Old: "					block:    node.Block,", New: "					block:    nil,", Expect: "R5"})
+	addMutant(Mutant{Name: "value-is-last-result", Prop: "C12", File: "compiler.go",
+		Old: "		return res[0].Interface(), nil\n	}\n\n	return nil, nil", New: "		return res[len(res)-1].Interface(), nil\n	}\n\n	return nil, nil", Expect: "R6"})
+	addMutant(Mutant{Name: "equiv-zero-instead-of-new-elem", Prop: "C12", File: "compiler.go", Equivalent: true,
+		Old: "			var ar reflect.Value\n			if v != nil {\n				ar = reflect.ValueOf(v)\n			} else {\n				ar = reflect.New(expectedT).Elem()\n			}\n\n			actualT := ar.Type()\n			if !actualT.AssignableTo(expectedT) {\n				return nil, fmt.Errorf(\"%+v (%T) is an invalid argument for %s at pos %d: expected (%s)\", v, v, node.Function.String(), pos, expectedT)\n			}\n\n			args = append(args, ar)\n		}\n	}\n\n	res := rv.Call(args)",
+		New: "			var ar reflect.Value\n			if v != nil {\n				ar = reflect.ValueOf(v)\n			} else {\n				ar = reflect.Zero(expectedT)\n			}\n\n			actualT := ar.Type()\n			if !actualT.AssignableTo(expectedT) {\n				return nil, fmt.Errorf(\"%+v (%T) is an invalid argument for %s at pos %d: expected (%s)\", v, v, node.Function.String(), pos, expectedT)\n			}\n\n			args = append(args, ar)\n		}\n	}\n\n	res := rv.Call(args)"})
 }
